@@ -46,6 +46,25 @@ pub enum Handle {
     HV(HistogramVec),
 }
 
+thread_local! {
+    static ORDER: std::cell::RefCell<Vec<u8>> = const { std::cell::RefCell::new(Vec::new()) };
+}
+
+/// Every argument expression of every macro invocation is wrapped in `ord(k, ..)` (k = its position): the explicit call evaluates
+/// each argument once, left to right, and so must the macro.
+pub fn ord<T>(k: u8, v: T) -> T {
+    ORDER.with(|o| o.borrow_mut().push(k));
+    v
+}
+
+pub fn reset_order() {
+    ORDER.with(|o| o.borrow_mut().clear());
+}
+
+pub fn take_order() -> Vec<u8> {
+    ORDER.with(|o| std::mem::take(&mut *o.borrow_mut()))
+}
+
 pub struct RegArm {
     pub text: &'static str,
     pub kind: Kind,
@@ -54,6 +73,8 @@ pub struct RegArm {
     pub labels: bool,
     pub buckets: bool,
     pub registry: bool,
+    /// number of argument expressions of the invocation
+    pub nargs: usize,
     pub call: fn(&ArmInput) -> prometheus::Result<Handle>,
 }
 
@@ -187,7 +208,7 @@ impl Property for C20 {
          unique valid name, help text, 0-2 constant labels, 1-3 label names, an accepted bucket list, and a registry without / with \
          prefix and common labels. Oracle per (arm, input): Ok(handle) whose descriptor equals the explicit constructor's field by \
          field (and whose collected bucket bounds equal the expected ones); a unique update through the handle is visible in gather() \
-         of the targeted registry (the named one, or the default registry) and not in the other; invoking the arm again evaluates to \
+         of the targeted registry (the named one, or the default registry) and not in the other; every argument expression is evaluated exactly once (in which order is not part of the statement: the explicit equivalents of some arms build the options, buckets included, before they look at the label names); invoking the arm again evaluates to \
          Err and leaves the first metric registered with its value; labels!/opts!/histogram_opts! values equal the explicitly built ones. Non-trivial: the input has >= 1 constant label or \
          >= 2 label names or non-default buckets or a registry with prefix/labels. Distinct = decoded choices."
     }
@@ -250,6 +271,14 @@ impl Property for C20 {
             for n in 0..4 {
                 for comma in [false, true] {
                     let got = labels_arm(n, comma, &ks, &vs);
+                    {
+                        let mut order = take_order();
+                        order.sort();
+                        let want_order: Vec<u8> = (0..(2 * n) as u8).collect();
+                        if order != want_order {
+                            return fail("macro-argument-not-evaluated-exactly-once", format!("{}: the argument expressions at positions {:?} were evaluated (the explicit call evaluates each of them exactly once)", format!("labels! with {} pairs (comma {})", n, comma), order));
+                        }
+                    }
                     let want: HashMap<String, String> = ks.iter().cloned().zip(vs.iter().cloned()).take(n).collect();
                     if got != want {
                         return fail("labels-macro-differs", format!("labels! with {} pairs (trailing comma: {}) gave {:?}, expected {:?}", n, comma, got, want));
@@ -271,6 +300,14 @@ impl Property for C20 {
             for n in 0..4 {
                 for comma in [false, true] {
                     let got = opts_arm(n, comma, base, &help, &maps[0], &maps[1], &maps[2]);
+                    {
+                        let mut order = take_order();
+                        order.sort();
+                        let want_order: Vec<u8> = (0..(2 + n) as u8).collect();
+                        if order != want_order {
+                            return fail("macro-argument-not-evaluated-exactly-once", format!("{}: the argument expressions at positions {:?} were evaluated (the explicit call evaluates each of them exactly once)", format!("opts! with {} label maps (comma {})", n, comma), order));
+                        }
+                    }
                     let mut want: HashMap<String, String> = HashMap::new();
                     for m in maps.iter().take(n) {
                         want.extend(m.iter().map(|(k, v)| (k.to_string(), v.to_string())));
@@ -286,6 +323,14 @@ impl Property for C20 {
             for n in 0..3 {
                 for comma in [false, true] {
                     let got = histogram_opts_arm(n, comma, base, &help, &buckets, &consts);
+                    {
+                        let mut order = take_order();
+                        order.sort();
+                        let want_order: Vec<u8> = (0..(2 + n) as u8).collect();
+                        if order != want_order {
+                            return fail("macro-argument-not-evaluated-exactly-once", format!("{}: the argument expressions at positions {:?} were evaluated (the explicit call evaluates each of them exactly once)", format!("histogram_opts! arm {} (comma {})", n, comma), order));
+                        }
+                    }
                     let want_b: Vec<f64> = if n >= 1 { buckets.clone() } else { prometheus::DEFAULT_BUCKETS.to_vec() };
                     let want_c: HashMap<String, String> = if n >= 2 { consts.clone() } else { HashMap::new() };
                     if got.common_opts.name != base || got.common_opts.help != help || got.buckets != want_b || got.common_opts.const_labels != want_c {
@@ -311,6 +356,17 @@ impl Property for C20 {
             };
             let ctx = |what: &str| format!("{} :: {} ;; name={:?} help={:?} consts={:?} labels={:?} buckets={:?} prefix={:?} common={:?}", arm.text, what, input.name, help, consts, label_names, buckets, prefix, common);
             let r = std::panic::catch_unwind(std::panic::AssertUnwindSafe(|| (arm.call)(&input)));
+            {
+                let mut order = take_order();
+                order.sort();
+                let want_order: Vec<u8> = (0..arm.nargs as u8).collect();
+                if order != want_order {
+                    if let Ok(Ok(h)) = &r {
+                        let _ = if arm.registry { registry.unregister(h.collector()) } else { prometheus::unregister(h.collector()) };
+                    }
+                    return fail("macro-argument-not-evaluated-exactly-once", ctx(&format!("the argument expressions at positions {:?} were evaluated (the explicit call evaluates each of them exactly once)", order)));
+                }
+            }
             let handle = match r {
                 Err(_) => return fail("macro-panicked", ctx("panicked on valid input")),
                 Ok(Err(e)) => return fail("macro-refused-valid-registration", ctx(&format!("evaluated to Err({})", e))),
